@@ -67,14 +67,14 @@ func streamDigest(data []byte, chunk, failAt int) string {
 // TestProp_StreamHistory: what a new StreamLexer shows of a stream does not depend on the streams that other lexers of the
 // process have seen (tokens that made their buffers grow)
 func TestProp_StreamHistory(t *testing.T) {
-	ev.Describe("streamhistory", "a stream of 20-400 short lines that breaks (a non-EOF error) at a drawn offset, read in chunks of 16-4096 bytes through buffer.NewStreamLexer, digested (line count, token lengths, the line at which Err() stops being nil) before and after 1-3 other lexers of the process have read streams with tokens of 3-60 KB; oracle: the two digests are equal; non-trivial = every case")
+	ev.Describe("streamhistory", "a stream of 20-400 short lines that breaks (a non-EOF error) at a drawn offset, read in chunks of 16-4096 bytes or as much as fits the buffer handed over, through buffer.NewStreamLexer, digested (line count, token lengths, the line at which Err() stops being nil) before and after 1-3 other lexers of the process have read streams with tokens of 3-60 KB; oracle: the two digests are equal; non-trivial = every case")
 	ev.Check(t, 60, func(t *rapid.T) {
 		var sb strings.Builder
 		for i, n := 0, rapid.IntRange(20, 400).Draw(t, "lines"); i < n; i++ {
 			fmt.Fprintf(&sb, "line %d of the stream\n", i)
 		}
 		data := []byte(sb.String())
-		chunk := rapid.SampledFrom([]int{16, 100, 512, 4096}).Draw(t, "chunk")
+		chunk := rapid.SampledFrom([]int{16, 100, 512, 4096, 1 << 30, 1 << 30}).Draw(t, "chunk") // (1<<30: as much as the buffer it is handed takes)
 		failAt := rapid.IntRange(1, len(data)).Draw(t, "failAt")
 		before := streamDigest(data, chunk, failAt)
 		for k := rapid.IntRange(1, 3).Draw(t, "others"); k > 0; k-- {
